@@ -1,6 +1,6 @@
 import Goyang.Model.Identity
 import Goyang.Spec.Identity
-import Goyang.Lemmas.IdentityLink
+import Goyang.Lemmas.IdentitySurvGraph
 /-
 C11 — each identity lists exactly its transitive derivations, once, in fixed order.
 Property theorems only; helper lemmas live in Goyang/Lemmas/Identity*.lean.
@@ -26,22 +26,39 @@ Hypotheses that appear, and why.
   `ms.include` establishes when no include/import fails (`include_establishes_linked`); failing
   ones are reported by `process` as "no such (sub)module" and are outside this property (the runner
   only checks that report).  `process_end_to_end` has neither this hypothesis nor (a) below.
-* `WellFormed r`: (a) the module table holds modules only — an invariant of `Modules.add`
-  (`loaded_module_table`);
-  (b) no module name contains a colon (YANG identifiers never do) — otherwise `m:a:b` is
-  ambiguous in Go's string-keyed dictionary; (c) no two identity statements of the schema define the
-  same vertex (RFC 7950 §7.18; module names unique) — with duplicates, or with two revisions of one
-  module loaded, one statement shadows the other in Go's dictionary (the later key in sorted key
-  order wins; modelled and compared by the runner, but not a derivation graph).
+* `WellFormed r` (first group of theorems): (a) the module table holds modules only — an invariant
+  of `Modules.add` (`loaded_module_table`);
+  (b) no module name contains a colon — otherwise `m:a:b` is ambiguous in Go's string-keyed
+  dictionary; DERIVED for texts whose (sub)module names are YANG identifiers
+  (`identifier_names_colon_free`); goyang does not check names, and with the illegal names `m:a` /
+  `a:b` it does misattribute a derived identity (`colon_in_module_name_misattributes`, replayed on
+  the real code);
+  (c) no two identity statements of the schema define the same vertex (RFC 7950 §7.18; module
+  names unique).  NOT needed by the second group (`…_surviving`, `process_end_to_end_surviving`):
+  with duplicates, or with two revisions of one module loaded, Go's dictionary keeps the statement
+  registered last, and those theorems speak about `Spec.Identity.survivorGraph`, the identity graph
+  of the surviving statements.  Go reports duplicates on no path (identity.go never looks for them).
+* `LoadedOK r` (second group): (a), (a') the keys of the module table are distinct
+  (`loaded_module_keys_distinct`), (b).  `loaded_ok`: all three hold of identifier-named texts that
+  `Modules.add` accepted, so `process_end_to_end_surviving` has no hypothesis on the schema at all.
+* `errors_oracle_independent` (the error lists under two map orders are permutations of each other,
+  same dictionary, same lists) needs (a') only — no `Linked`, no `WellFormed`.
+
+What is not proved here: that `survivorGraph r = graph r` up to the order of the lists when (c)
+holds (both groups of theorems cover that case separately); the specification's `registrations` answering (`some`) for every registry (the theorems
+take `survivorGraph r = some G` as hypothesis, the examples discharge it by `decide`; the runner's
+executable verdict `judge` still reports schemas with duplicate vertices as outside).
 -/
 namespace Goyang.Props.C11
 open Goyang.Model Goyang.Model.Identity
 open Goyang.Spec.Identity (Reach closure Graph graph Derives Acyclic AllBasesResolve ValuesOK Before
-  OneStatementPerVertex refTarget names Vertex)
+  OneStatementPerVertex refTarget names Vertex survivorGraph registrations survivors isIdentifier)
 open Goyang.Lemmas.Identity (LinkOK Hyp RegOK resolveIdentities_graph vtxLt_iff vtxLt_strictTotal
   sorted_unique graph_facts GraphFacts derives_left_vertex resolve_agrees buildDict_spec
   closure_spec walk_nil pairwise_before regOK_of_entries linkOK_of_all acyclic_of_rank
-  regOK_of_loadAll linkAll_spec)
+  regOK_of_loadAll linkAll_spec RegOK KeysDistinct keysDistinct_of_loadAll resolve_two_oracles
+  resolveIdentities_survivors findIdentityBase_survivors survivorGraph_facts survivors_nodup derives_left_vertexS IdentifierNames
+  noColon_of_identifierNames buildDict_eq dictStep walk_congr foldlM_congr_opt mem_modulesByKey)
 
 /-- The include statements of every part of the schema are linked (see the header). -/
 abbrev Linked (r : Registry) (lk : Link) : Prop := LinkOK r lk
@@ -288,6 +305,241 @@ theorem process_end_to_end (files : List SrcFile) (r : Registry) (hload : loadAl
     cases hres'
     exact ⟨res, by simp [hres], hvals, herr⟩
 
+/-! ### independence of the map order, without hypotheses on the schema -/
+
+/-- The keys of `ms.Modules` are distinct — it is a Go map; an invariant of `Modules.add`
+(`loaded_module_keys_distinct`).  Then `sort.Strings(keys)` has one possible result. -/
+abbrev ModuleKeysDistinct (r : Registry) : Prop := KeysDistinct r
+
+/-- `Modules.add` keeps the keys of the module table distinct. -/
+theorem loaded_module_keys_distinct (files : List SrcFile) (r : Registry) (h : loadAll files = .ok r) :
+    ModuleKeysDistinct r :=
+  keysDistinct_of_loadAll h
+
+/-- The reported errors do not depend on the order in which Go walks its maps: under any two
+admissible oracles `resolveIdentities` answers, builds the same dictionary, leaves the same lists,
+and the two error lists are permutations of each other — the same errors, each the same number of
+times; in particular the same set.  No hypothesis on the schema (duplicates, cycles, dangling
+bases, colons, unlinked includes: all allowed); the registry only has to be one with distinct
+table keys, as every loaded one is. -/
+theorem errors_oracle_independent (r : Registry) (lk : Link) (hk : ModuleKeysDistinct r)
+    (o1 o2 : Oracle) (h1 : o1.Valid) (h2 : o2.Valid) :
+    ∃ res1 res2, resolveIdentities o1 r lk (fun _ => []) = some res1 ∧
+      resolveIdentities o2 r lk (fun _ => []) = some res2 ∧
+      res1.dict = res2.dict ∧ res1.vals = res2.vals ∧
+      res1.errs.Perm res2.errs ∧ (∀ e, e ∈ res1.errs ↔ e ∈ res2.errs) := by
+  obtain ⟨res1, res2, hr1, hr2, hd, hv, hp⟩ := resolve_two_oracles r lk hk o1 o2 h1 h2
+  exact ⟨res1, res2, hr1, hr2, hd, hv, hp, fun e => hp.mem_iff⟩
+
+/-- `resolveIdentities` reads the link state only through the include closures of the loaded
+modules: two link states that both have every include of the schema linked (what `ms.include`
+leaves under two map orders) give the same result. -/
+theorem links_irrelevant (r : Registry) (lk1 lk2 : Link) (hl1 : Linked r lk1) (hl2 : Linked r lk2)
+    (o : Oracle) (ho : o.Valid) (vals0 : Vtx → List Vtx) :
+    resolveIdentities o r lk1 vals0 = resolveIdentities o r lk2 vals0 := by
+  have hb : buildDict o r lk1 = buildDict o r lk2 := by
+    rw [buildDict_eq, buildDict_eq]
+    apply foldlM_congr_opt
+    intro acc md hmd
+    have hmd' := (mem_modulesByKey o ho r md).mp hmd
+    unfold dictStep
+    have : walk (includeSucc r lk1) (r.mods.length + 1) md.seq [] =
+        walk (includeSucc r lk2) (r.mods.length + 1) md.seq [] := by
+      apply walk_congr
+      intro x hx
+      have hin : Goyang.Lemmas.Identity.InSchema r x := by
+        refine ⟨md, hmd', ?_⟩
+        exact (Goyang.Lemmas.Identity.reach_congr (fun y hy => hl2 y ⟨md, hmd', hy⟩) x).mp hx
+      rw [hl1 x hin, hl2 x hin]
+    rw [this]
+  unfold resolveIdentities
+  rw [hb]
+
+/-- What `Process` reports for identities (errors of `resolveIdentities` and of the typedefs, else
+those of the identityref leaves) is, as a multiset, the same under any two map orders — also when
+the two runs of `ms.include` left different link states. -/
+theorem process_errors_oracle_independent (r : Registry) (lk1 lk2 : Link) (hl1 : Linked r lk1)
+    (hl2 : Linked r lk2) (hk : ModuleKeysDistinct r) (o1 o2 : Oracle) (h1 : o1.Valid) (h2 : o2.Valid) :
+    ∃ res1 res2, resolveIdentities o1 r lk1 (fun _ => []) = some res1 ∧
+      resolveIdentities o2 r lk2 (fun _ => []) = some res2 ∧
+      res1.vals = res2.vals ∧ identityrefLeaves r res1.dict = identityrefLeaves r res2.dict ∧
+      (processErrs r res1 (identityrefLeaves r res1.dict)).Perm
+        (processErrs r res2 (identityrefLeaves r res2.dict)) := by
+  obtain ⟨res1, res2, hr1, hr2, hd, hv, hp, _⟩ := errors_oracle_independent r lk1 hk o1 o2 h1 h2
+  rw [links_irrelevant r lk1 lk2 hl1 hl2 o2 h2] at hr2
+  refine ⟨res1, res2, hr1, hr2, hv, by rw [hd], ?_⟩
+  unfold processErrs
+  simp only
+  rw [← hd]
+  have hs : (res1.errs ++ typedefErrs r res1.dict).Perm (res2.errs ++ typedefErrs r res1.dict) :=
+    hp.append_right _
+  have he : (res1.errs ++ typedefErrs r res1.dict).isEmpty = (res2.errs ++ typedefErrs r res1.dict).isEmpty := by
+    have := hs.length_eq
+    cases h1 : res1.errs ++ typedefErrs r res1.dict <;> cases h2 : res2.errs ++ typedefErrs r res1.dict <;>
+      simp_all
+  rw [he]
+  split
+  · exact List.Perm.refl _
+  · exact hs
+
+/-! ### schemas with several identity statements for one vertex
+
+RFC 7950 rules them out, goyang loads them (two identity statements of one name in a module and
+its submodules; several revisions of one module side by side).  Go's dictionary then keeps the
+statement registered last; `Spec.Identity.survivorGraph` is the identity graph of these surviving
+statements (registration order: module-table keys ascending, under a key the module and its
+includes depth first, within a (sub)module source order).  The theorems above, over that graph,
+without hypothesis (c). -/
+
+/-- What the theorems over the surviving statements ask of the loaded set: (a) the module table
+holds modules only, (a') its keys are distinct, (b) no module name contains a colon.  (a) and (a')
+hold of everything `Modules.add` built, (b) when the names are YANG identifiers
+(`loaded_ok`). -/
+structure LoadedOK (r : Registry) : Prop where
+  modulesOnly : ∀ k m, r.getModule k = some m → m.isSub = false
+  keys : ModuleKeysDistinct r
+  noColon : ∀ m ∈ r.mods, ':' ∉ m.name.toList
+
+/-- The surviving statements define each vertex once: `survivorGraph` always is a graph in the
+sense of the main theorems. -/
+theorem survivor_graph_one_per_vertex (r : Registry) (G : Graph) (hG : survivorGraph r = some G) :
+    OneStatementPerVertex G := by
+  obtain ⟨ps, R, _, sf⟩ := survivorGraph_facts hG
+  unfold OneStatementPerVertex
+  rw [sf.vertsEq]
+  exact survivors_nodup R
+
+/-- `values_are_derived` for schemas with any number of statements per vertex: for every map
+order, every vertex ends up with the ascending list of exactly the vertices derived from it through
+base statements of SURVIVING statements; the dictionary holds exactly the surviving vertices. -/
+theorem values_are_derived_surviving (r : Registry) (lk : Link) (hl : Linked r lk) (hw : LoadedOK r)
+    (G : Graph) (hG : survivorGraph r = some G) (o : Oracle) (ho : o.Valid) :
+    ∃ res, resolveIdentities o r lk (fun _ => []) = some res ∧
+      (∀ v, (∃ e ∈ res.dict, e.vtx = v) ↔ v ∈ G.verts) ∧
+      (∀ i ∈ G.verts, ValuesOK G i (res.vals i)) ∧ (∀ x, x ∉ G.verts → res.vals x = []) := by
+  obtain ⟨res, hres, hverts, hvals, hout, _⟩ :=
+    resolveIdentities_survivors o ho r lk hl hw.modulesOnly hw.keys hw.noColon G hG
+  exact ⟨res, hres, hverts, fun i hi => ⟨(hvals i hi).1, pairwise_before (hvals i hi).2⟩, hout⟩
+
+/-- `values_eq_closure` over the surviving statements: their graph acyclic, all their bases
+resolve ⇒ no error, and every vertex lists exactly its strict transitive derivations, each once,
+never itself. -/
+theorem values_eq_closure_surviving (r : Registry) (lk : Link) (hl : Linked r lk) (hw : LoadedOK r)
+    (G : Graph) (hG : survivorGraph r = some G) (hac : Acyclic G) (hall : AllBasesResolve G)
+    (o : Oracle) (ho : o.Valid) :
+    ∃ res, resolveIdentities o r lk (fun _ => []) = some res ∧ res.errs = [] ∧
+      ∀ i ∈ G.verts, ValuesOK G i (res.vals i) ∧ (res.vals i).Nodup ∧ i ∉ res.vals i := by
+  obtain ⟨res, hres, _, hvals, _, herrs⟩ :=
+    resolveIdentities_survivors o ho r lk hl hw.modulesOnly hw.keys hw.noColon G hG
+  refine ⟨res, hres, herrs.mpr ⟨hall.2, hall.1, fun v _ => hac v⟩, ?_⟩
+  intro i hi
+  obtain ⟨h1, h2⟩ := hvals i hi
+  refine ⟨⟨h1, pairwise_before h2⟩, ?_, fun hmem => hac i ((h1 i).mp hmem)⟩
+  refine h2.imp ?_
+  intro a b hab e
+  subst e
+  rw [vtxLt_strictTotal.irrefl] at hab
+  cases hab
+
+/-- `errors_iff` over the surviving statements: an error is reported exactly when a base
+statement of a surviving statement names no surviving vertex, an included submodule has no loaded
+owner, or a surviving vertex is derived from itself.  A dangling base or a cycle that exists only
+through shadowed statements is NOT reported. -/
+theorem errors_iff_surviving (r : Registry) (lk : Link) (hl : Linked r lk) (hw : LoadedOK r)
+    (G : Graph) (hG : survivorGraph r = some G) (o : Oracle) (ho : o.Valid) :
+    ∃ res, resolveIdentities o r lk (fun _ => []) = some res ∧
+      (res.errs ≠ [] ↔ (G.dangling ≠ [] ∨ G.orphans ≠ [] ∨ ∃ v, Derives G v v)) := by
+  obtain ⟨res, hres, _, _, _, herrs⟩ :=
+    resolveIdentities_survivors o ho r lk hl hw.modulesOnly hw.keys hw.noColon G hG
+  obtain ⟨ps, R, _, sf⟩ := survivorGraph_facts hG
+  refine ⟨res, hres, ?_⟩
+  rw [Ne, herrs]
+  constructor
+  · intro h
+    apply Classical.byContradiction
+    intro hn
+    simp only [not_or, not_exists, Ne, Decidable.not_not] at hn
+    exact h ⟨hn.2.1, hn.1, fun v _ => hn.2.2 v⟩
+  · rintro (h | h | ⟨v, hv⟩) ⟨h1, h2, h3⟩
+    · exact h h2
+    · exact h h1
+    · exact h3 v (derives_left_vertexS sf hv) hv
+
+/-- `identityref_base` over the surviving statements: an identityref type written in a loaded
+(sub)module `m`, with base statement `b`, resolves exactly when `b` names a surviving vertex, and
+then `YangType.IdentityBase` is that vertex's dictionary entry (the surviving statement). -/
+theorem identityref_base_surviving (r : Registry) (lk : Link) (hl : Linked r lk) (hw : LoadedOK r)
+    (G : Graph) (hG : survivorGraph r = some G) (o : Oracle) (ho : o.Valid) :
+    ∃ res, resolveIdentities o r lk (fun _ => []) = some res ∧
+      ∀ m ∈ r.mods, ∀ (ty b : Stmt), ty.one? "base" = some b → ∀ v,
+        (∃ e, identityrefBase r res.dict m ty = .ok e ∧ e ∈ res.dict ∧ e.vtx = v) ↔
+          refTarget r G m b.arg = some v := by
+  obtain ⟨res, hres, hfind⟩ :=
+    findIdentityBase_survivors o ho r lk hl hw.modulesOnly hw.keys hw.noColon G hG
+  refine ⟨res, hres, ?_⟩
+  intro m hm ty b hb v
+  unfold identityrefBase refTarget
+  simp only [hb]
+  rw [hfind m hm b.arg v]
+  constructor
+  · rintro ⟨hn, hmem⟩
+    simp [hn, hmem]
+  · intro h
+    cases hn : names r m b.arg with
+    | none => simp [hn] at h
+    | some w =>
+      simp only [hn, Option.filter_some] at h
+      split at h
+      · rename_i hw'
+        cases h
+        exact ⟨rfl, by simpa using hw'⟩
+      · cases h
+
+/-! ### hypothesis (b): module names without colon -/
+
+/-- The name of every module and submodule handed to `Modules.add` is a YANG identifier
+(RFC 7950 §6.2: a letter or `_`, then letters, digits, `_`, `-`, `.`).  Every legal YANG text
+satisfies this; goyang's parser and AST builder do not check it
+(`colon_in_module_name_misattributes`). -/
+abbrev IdentifierNamed (files : List SrcFile) : Prop := IdentifierNames files
+
+/-- Hypothesis (b) is derived: texts whose (sub)module names are identifiers load into a registry
+without a colon in any module name. -/
+theorem identifier_names_colon_free (files : List SrcFile) (r : Registry) (h : loadAll files = .ok r)
+    (hid : IdentifierNamed files) : ∀ m ∈ r.mods, ':' ∉ m.name.toList :=
+  noColon_of_identifierNames h hid
+
+/-- Everything `LoadedOK` asks holds of identifier-named texts that `Modules.add` accepted. -/
+theorem loaded_ok (files : List SrcFile) (r : Registry) (h : loadAll files = .ok r)
+    (hid : IdentifierNamed files) : LoadedOK r :=
+  ⟨regOK_of_loadAll h, keysDistinct_of_loadAll h, noColon_of_identifierNames h hid⟩
+
+/-- `process_end_to_end` without hypotheses (b) and (c): from identifier-named texts, for every
+map order, either an include/import is reported missing, or every surviving vertex gets the
+ascending list of exactly what is derived from it among the surviving statements, and an error is
+reported exactly when one of them has a base that names no surviving vertex, an included submodule
+has no loaded owner, or a surviving vertex is derived from itself. -/
+theorem process_end_to_end_surviving (files : List SrcFile) (r : Registry) (hload : loadAll files = .ok r)
+    (hid : IdentifierNamed files) (G : Graph) (hG : survivorGraph r = some G) (o : Oracle) (ho : o.Valid) :
+    (∃ errs, run o r = .linkFailed errs ∧ errs ≠ []) ∨
+    (∃ res, run o r = .done res (identityrefLeaves r res.dict) ∧
+      (∀ i ∈ G.verts, ValuesOK G i (res.vals i)) ∧
+      (res.errs ≠ [] ↔ (G.dangling ≠ [] ∨ G.orphans ≠ [] ∨ ∃ v, Derives G v v))) := by
+  obtain ⟨lk, lerrs, hlink, hlinked⟩ := linkAll_spec o ho r
+  have hw : LoadedOK r := loaded_ok files r hload hid
+  unfold run
+  simp only [hlink]
+  cases lerrs with
+  | cons e es => exact Or.inl ⟨e :: es, by simp, by simp⟩
+  | nil =>
+    right
+    have hl : Linked r lk := hlinked rfl
+    obtain ⟨res, hres, _, hvals, _⟩ := values_are_derived_surviving r lk hl hw G hG o ho
+    obtain ⟨res', hres', herr⟩ := errors_iff_surviving r lk hl hw G hG o ho
+    rw [hres] at hres'
+    cases hres'
+    exact ⟨res, by simp [hres], hvals, herr⟩
+
 /-! ### non-vacuity: a diamond across two modules, one corner in a sub-submodule
 
 ```
@@ -398,5 +650,128 @@ example : ¬ Acyclic exG2 := fun h =>
 example : ((resolveIdentities (Oracle.ofNat 0) exR2 (exLink exR2) (fun _ => [])).map fun res =>
       (res.vals ("c", "x"), res.errs.map (·.cls))) =
     some ([("c", "x"), ("d", "y")], ["identity-base-local", "cycle", "cycle"]) := by decide
+
+
+/-! ### non-vacuity of the new theorems -/
+
+/-- The keys of `exR`'s module table are distinct; its names are identifiers. -/
+example : ModuleKeysDistinct exR := by show (exR.modules.map (·.1)).Nodup; decide
+/-- `exLoad` is the registry `loadAll` returns when it accepts the texts. -/
+def exLoads (files : List SrcFile) : Bool :=
+  match loadAll files with
+  | .ok _ => true
+  | .error _ => false
+theorem exLoad_ok (files : List SrcFile) (h : exLoads files = true) : loadAll files = .ok (exLoad files) := by
+  unfold exLoads at h
+  unfold exLoad
+  cases hl : loadAll files with
+  | ok r => rfl
+  | error e => simp [hl] at h
+theorem example_identifierNamed :
+    IdentifierNamed [⟨"b", [exModB]⟩, ⟨"sb", [exSubSB]⟩, ⟨"a", [exModA]⟩, ⟨"sa", [exSubSA]⟩] := by
+  intro f hf s hs
+  simp only [List.mem_cons, List.not_mem_nil, or_false] at hf
+  rcases hf with rfl | rfl | rfl | rfl <;>
+    (simp only [List.mem_singleton] at hs; subst hs; decide)
+example : loadAll [⟨"b", [exModB]⟩, ⟨"sb", [exSubSB]⟩, ⟨"a", [exModA]⟩, ⟨"sa", [exSubSA]⟩] = .ok exR :=
+  exLoad_ok _ (by decide)
+/-- On a schema with one statement per vertex every statement survives: same vertices and edges
+as `graph` (listed in registration order). -/
+example : (survivorGraph exR).map (fun G => (G.verts, G.dangling, G.orphans)) =
+    some ([("a", "top"), ("a", "left"), ("a", "deep"), ("b", "right"), ("b", "bottom")], [], []) := by decide
+
+/-- Two revisions of module `a` side by side, and module `b` with two statements `identity dup`:
+```
+module a { revision 2019-01-01; identity top; identity old { base top; } }
+module a { revision 2021-01-01; identity top; identity new { base top; } }
+module b { import a { prefix pa; } identity dup { base pa:top; } identity dup; }
+```
+Table keys ascending: `a` (→ 2021), `a@2019-01-01`, `a@2021-01-01`, `b`.  Survivors: `top` and `new`
+of revision 2021, `old` of revision 2019, the SECOND `dup` (which has no base).  Go lists
+`a:top ↦ [new, old]` through the 2021 statement and nothing for `b:dup`'s first statement (replayed
+on the real code: /tmp probe, both load orders). -/
+def exStmtAt (line : Nat) (kw arg : String) (subs : List Stmt := []) : Stmt := .mk kw true arg "x.yang" line 1 subs
+def exModA19 : Stmt := exStmt "module" "a" [exStmt "namespace" "urn:a", exStmt "prefix" "a", exStmt "revision" "2019-01-01",
+  exStmtAt 19 "identity" "top", exStmtAt 19 "identity" "old" [exStmt "base" "top"]]
+def exModA21 : Stmt := exStmt "module" "a" [exStmt "namespace" "urn:a", exStmt "prefix" "a", exStmt "revision" "2021-01-01",
+  exStmtAt 21 "identity" "top", exStmtAt 21 "identity" "new" [exStmt "base" "top"]]
+def exModDup : Stmt := exStmt "module" "b" [exStmt "namespace" "urn:b", exStmt "prefix" "b", exStmt "import" "a" [exStmt "prefix" "pa"],
+  exStmtAt 1 "identity" "dup" [exStmt "base" "pa:top"], exStmtAt 2 "identity" "dup"]
+def exFiles3 : List SrcFile := [⟨"a19", [exModA19]⟩, ⟨"a21", [exModA21]⟩, ⟨"b", [exModDup]⟩]
+def exR3 : Registry := exLoad exFiles3
+
+theorem example3_loaded : loadAll exFiles3 = .ok exR3 := exLoad_ok _ (by decide)
+example : (Goyang.Spec.Identity.ascendingKeys exR3.modules).map (·.1) = ["a", "a@2019-01-01", "a@2021-01-01", "b"] := by
+  decide
+theorem example3_identifierNamed : IdentifierNamed exFiles3 := by
+  intro f hf s hs
+  simp only [exFiles3, List.mem_cons, List.not_mem_nil, or_false] at hf
+  rcases hf with rfl | rfl | rfl <;>
+    (simp only [List.mem_singleton] at hs; subst hs; decide)
+/-- Hypothesis (c) of the first theorems fails here: `graph` has every vertex of `a` twice. -/
+example : (graph exR3).map (fun G => G.verts) =
+    some [("a", "top"), ("a", "old"), ("a", "top"), ("a", "new"), ("b", "dup"), ("b", "dup")] := by decide
+/-- The registrations and who survives (line numbers tell the statements apart). -/
+example : (registrations exR3).map (fun R => R.map fun x => (x.1, x.2.2.line)) =
+    some [(("a", "top"), 21), (("a", "new"), 21), (("a", "top"), 19), (("a", "old"), 19),
+      (("a", "top"), 21), (("a", "new"), 21), (("b", "dup"), 1), (("b", "dup"), 2)] := by decide
+example : (registrations exR3).map (fun R => (survivors R).map fun x => (x.1, x.2.2.line)) =
+    some [(("a", "old"), 19), (("a", "top"), 21), (("a", "new"), 21), (("b", "dup"), 2)] := by decide
+def exG3 : Graph :=
+  { verts := [("a", "old"), ("a", "top"), ("a", "new"), ("b", "dup")]
+    edges := [(("a", "old"), ("a", "top")), (("a", "new"), ("a", "top"))]
+    dangling := [], orphans := [], missing := [] }
+theorem example3_graph : survivorGraph exR3 = some exG3 := by decide
+example : Linked exR3 (exLink exR3) := linkOK_of_all (by decide)
+example : LoadedOK exR3 := loaded_ok exFiles3 exR3 example3_loaded example3_identifierNamed
+example : Acyclic exG3 := acyclic_of_rank (fun v => if v.2 == "top" then 0 else 1) (by decide)
+example : AllBasesResolve exG3 := ⟨rfl, rfl⟩
+/-- What the model computes (the same as Go): `b:dup` is not derived from `a:top`. -/
+example : ((resolveIdentities (Oracle.ofNat 0) exR3 (exLink exR3) (fun _ => [])).map fun res =>
+      (res.vals ("a", "top"), res.vals ("b", "dup"), res.errs.length)) =
+    some ([("a", "new"), ("a", "old")], [], 0) := by decide
+example : ((resolveIdentities (Oracle.ofNat 0) exR3 (exLink exR3) (fun _ => [])).map fun res =>
+      res.dict.map (fun e => (e.vtx, e.stmt.line))) =
+    some [(("a", "top"), 21), (("a", "new"), 21), (("a", "old"), 19), (("b", "dup"), 2)] := by decide
+example : ((resolveIdentities (Oracle.ofNat 3) exR3 (exLink exR3) (fun _ => [])).map fun res =>
+      (res.vals ("a", "top"), res.vals ("b", "dup"), res.errs.length)) =
+    some ([("a", "new"), ("a", "old")], [], 0) := by decide
+
+/-! ### hypothesis (b) is needed, and goyang does not enforce it
+
+```
+module m:a { prefix p; identity b; }
+module m   { prefix q; identity a:b; }
+module z   { prefix z; import m { prefix q; } identity d3 { base q:a:b; } }
+```
+Neither `m:a` nor `a:b` is an identifier, but goyang's parser and AST builder accept the texts.
+`m:a`+`:`+`b` and `m`+`:`+`a:b` are the same dictionary key, the entry of `m:a` (later table key)
+wins, and `z:d3`, whose base names `a:b` of module `m`, is listed under `b` of module `m:a`.
+Replayed on the real code: `identity b` of `m:a` gets `Values = [d3]`, `identity a:b` of `m` gets
+none; without module `m:a` loaded `a:b` of `m` gets `[d3]`.  With legal YANG this cannot happen
+(`identifier_names_colon_free`). -/
+def exModMA : Stmt := exStmt "module" "m:a" [exStmt "namespace" "urn:ma", exStmt "prefix" "p", exStmt "identity" "b"]
+def exModM : Stmt := exStmt "module" "m" [exStmt "namespace" "urn:m", exStmt "prefix" "q", exStmt "identity" "a:b"]
+def exModZ : Stmt := exStmt "module" "z" [exStmt "namespace" "urn:z", exStmt "prefix" "z", exStmt "import" "m" [exStmt "prefix" "q"],
+  exStmt "identity" "d3" [exStmt "base" "q:a:b"]]
+def exR4 : Registry := exLoad [⟨"x", [exModMA]⟩, ⟨"y", [exModM]⟩, ⟨"z", [exModZ]⟩]
+def exG4 : Graph :=
+  { verts := [("m:a", "b"), ("m", "a:b"), ("z", "d3")]
+    edges := [(("z", "d3"), ("m", "a:b"))]
+    dangling := [], orphans := [], missing := [] }
+
+/-- With a colon in a module name the lists are wrong although every other hypothesis of
+`values_are_derived` holds: the schema says `z:d3` is derived from `a:b` of module `m`; the model
+(and Go) list it under `b` of module `m:a` and leave the list of `m`'s `a:b` empty. -/
+theorem colon_in_module_name_misattributes :
+    graph exR4 = some exG4 ∧ OneStatementPerVertex exG4 ∧ Linked exR4 (exLink exR4) ∧
+    (∀ k m, exR4.getModule k = some m → m.isSub = false) ∧
+    Derives exG4 ("z", "d3") ("m", "a:b") ∧
+    ((resolveIdentities (Oracle.ofNat 0) exR4 (exLink exR4) (fun _ => [])).map fun res =>
+      (res.vals ("m", "a:b"), res.vals ("m:a", "b"))) = some ([], [("z", "d3")]) :=
+  ⟨by decide, by show exG4.verts.Nodup; decide, linkOK_of_all (by decide), regOK_of_entries (by decide),
+    Derives.base (by decide), by decide⟩
+/-- … and the names of that example are not identifiers. -/
+example : isIdentifier "m:a" = false ∧ isIdentifier "a:b" = false ∧ isIdentifier "ietf-interfaces" = true := by decide
 
 end Goyang.Props.C11
